@@ -78,6 +78,20 @@ def gen(run):
             cases.append({"text": text, "opts": {}, "origin": f"for-structure:{lay}"})
     run.states += len(structs)
     run.transitions += len(structs)
+    # G: characters that Python's str.splitlines() treats as line ends but BASIC does not, inside literals / remarks / DATA
+    n = 0
+    for ch in "\x0b\x0c\x1c\x1d\x1e\x85\x00\t":
+        for tpl in ('PRINT "A{}B" ; 1', "REM A{}B", "' A{}B", "DATA A{}B , 2", 'DATA "A{}B"', 'A$ = "A{}B', 'INPUT "A{}B" ; C$', 'HPRINT ( 1 , 2 ) , "A{}B"', 'PLAY "A{}B"'):
+            text = K.program_for([tpl.replace("{}", ch), 'SOUND 1 , 1'])
+            for opts in ({}, FULL, {"output_dependencies": True, "procname": "q"}, {"output_dependencies": True, "procname": "q", "skip_procedure_headers": True}):
+                cases.append({"text": text, "opts": opts, "origin": f"ctl-char:{ord(ch):02x}"})
+                n += 1
+    # H: PRINT / PRINT@ lists beginning or ending with separators
+    for body in (",A$", ";A$", ",,A$", ";1", ",", ";", "A$,", "A$;", ",A$,", "@5,;A$", "@5,,A$", "@5,A$;", "TAB(3);A$", ";TAB(3)"):
+        cases.append({"text": f'10 A$="X"\n20 PRINT {body}\n', "opts": {}, "origin": "print-separators"})
+        n += 1
+    run.states += n
+    run.transitions += n
     # C: ordered pairs
     cat = K.CATALOGUE if not quick else [c for c in K.CATALOGUE]
     n = 0
